@@ -54,6 +54,9 @@ def prices(rng, n, family, level=None):
         level = 100.0
     if family == "trend_down":
         level = 50.0 + 0.62 * n
+    if family == "tiny":
+        scale = 1e-9  # quotes in very small units: ratios (RSI, ROC, STOCH, Aroon) must not care
+        level = 100.0 * scale
     if family == "scale":
         scale = rng.choice([1e-3, 1e-1, 10.0, 1e3, 1e5])
         level = 100.0 * scale
@@ -118,6 +121,8 @@ def prices(rng, n, family, level=None):
                 h = max(h, c, o)
                 l = min(l, c, o)
                 p = c
+        if family == "frac_vol":
+            v = v * 1e-5  # fractional lot sizes
         out.append((o, h, l, c, v))
     return out
 
